@@ -64,6 +64,58 @@ CHECKS.update({
     ),
 })
 
+CHECKS.update({
+    "C02": (
+        "Hypothesis-generated synthetic reactions; differential test against an independent helicity-formula evaluator"
+        " (factorial-sum Wigner-d / Clebsch-Gordan)",
+        "Every generated model (both formalisms, coefficient and helicity-coupling mode, naming flags, identical"
+        " particles, multi-topology, Breit-Wigner dynamics) is lambdified the user's way and compared at 3 numeric"
+        " points incl. angular boundary values: every chain component against the reference chain amplitude, the"
+        " intensity against the incoherent/coherent sum formed by the harness, the I_ components against their groups.",
+        "Trusts vp/ref/spin.py (self-tested against sympy), the re-implemented variable naming convention, numpy."
+        " The sign of chains with parity-conserving nodes is left to C03.",
+        "DESIGN.md §4 C02",
+    ),
+    "C03": (
+        "Hypothesis-generated parity-conserving reactions; pairwise sign oracle + differential helicity-vs-canonical"
+        " formulation with Clebsch-Gordan expansion of drawn LS couplings",
+        "For each generated reaction the helicity model's chain signs are read off numerically and (1) compared pairwise"
+        " with the product of eta over the reversed nodes, (2) used to derive the helicity coefficients from randomly"
+        " drawn LS couplings; the helicity and canonical models must then give equal intensities at generated points.",
+        "Trusts vp/ref/spin.py and that canonical coefficients factorise into per-node LS couplings.",
+        "DESIGN.md §4 C03",
+    ),
+    "C11": (
+        "Hypothesis-generated (masses, s) relative to the landmarks 0 / pseudo-threshold / threshold; exact-rational"
+        " break-up momentum oracle and the relations stated in the property",
+        "Tens of thousands of points per run incl. offsets down to 1e-12 from the landmarks, equal/nearly-equal/extreme"
+        " mass ratios, asymptotic s and Cauchy sequences across threshold; each stated relation is evaluated through"
+        " doit()+lambdify with complex inputs, with error bounds propagated from exact rational arithmetic.",
+        "Trusts vp/ref/dyn.py (no sympy/ampform imports). Points whose double-precision evaluation is undetermined are"
+        " labelled, not asserted.",
+        "DESIGN.md §4 C11",
+    ),
+    "C12": (
+        "Hypothesis-generated L, masses, radii, energies and builder configurations; exact-rational Blatt-Weisskopf"
+        " polynomials and an independent Breit-Wigner as reference, plus builder-vs-function differential",
+        "Normalisations (Gamma(m0^2)=Gamma0, B_L(1)=1, z^L threshold behaviour, boundedness, polynomial fast path ="
+        " Hankel definition) and the numerical identity of every builder (4 flag combinations x 6 phase-space choices,"
+        " 3 convenience builders, non-dynamic-with-ff) with the public functions and with a reference implementation.",
+        "Trusts vp/ref/dyn.py; the documented ValueError for a missing angular momentum is the contract (skipped).",
+        "DESIGN.md §4 C12",
+    ),
+    "C16": (
+        "Hypothesis RuleBasedStateMachine over cache-directory histories (call / crash at byte k / garbage /"
+        " harness-scheduled interleaving) under three hash-seed modes; reference = direct doit()",
+        "Stateful generated histories on a fresh directory with colliding expression pairs, every write-prefix crash,"
+        " garbage files and two interleaved writers, in shards with PYTHONHASHSEED 0 / 7 / unset; plus exhaustive sweeps"
+        " over all cut positions as fixed cases. Invariant: every call returns doit() and never raises.",
+        "Concurrency is decided for harness-owned interleavings at pickle.dump granularity; real multi-process"
+        " scheduling is only sampled (thorough tier). Adversarial pickles whose __eq__ raises are out of scope.",
+        "DESIGN.md §4 C16",
+    ),
+})
+
 NOT_CLAIMED: dict[str, str] = {}
 DEFAULT_REASON = "check not built yet in this round (planned: DESIGN.md §4); no verdict is claimed"
 
